@@ -219,7 +219,12 @@ func (r *frender) raw(n J) string {
 		}
 		return s + r.j("", jFree) + "(" + strings.Join(names, ","+r.j(" ", jFree)) + ")" + r.j(" ", jFree) + r.block(body)
 	case "cmt":
-		return unlatin1(n["text"].(string))
+		// a comment in EXPRESSION position (statement comments are laid out by stmts): a line comment ends with its line
+		text := unlatin1(n["text"].(string))
+		if strings.HasPrefix(text, "//") {
+			return text + "\n"
+		}
+		return text
 	}
 	return renderRaw(n, styleNormal) // leaves: int float bool id none brk cnt
 }
@@ -246,6 +251,10 @@ func (r *frender) stmts(list []any, top bool) string {
 	n := len(list)
 	texts := make([]string, n)
 	for i, s := range list {
+		if isCmt(s) {
+			texts[i] = unlatin1(s.(J)["text"].(string))
+			continue
+		}
 		texts[i] = r.node(s.(J), 0)
 	}
 	for i, s := range list {
